@@ -64,7 +64,7 @@ func init() {
 	}
 	registry["C10"] = &Property{
 		Quick: []HarnessSpec{
-			{Name: "VC10_DescriptorDecodeExact", Params: map[string]int{"vsymC10Max": 100}, ConcAlloc: true, MaxDecisions: 4000, NeedReach: []string{"end"}},
+			{Name: "VC10_DescriptorDecodeExact", Params: map[string]int{"vsymC10Max": 100}, ConcAlloc: true, MaxDecisions: 4000, NeedReach: []string{"end", "refused"}},
 			{Name: "VC10_WinCertDecodeExact", Params: map[string]int{"vsymC10Max": 100}, ConcAlloc: true, MaxDecisions: 4000, NeedReach: []string{"end"}},
 			{Name: "VC10_EncodeDecode", Params: map[string]int{"vsymC10Max": 60}, ConcAlloc: true, MaxDecisions: 4000, NeedReach: []string{"end"}},
 		},
@@ -73,7 +73,7 @@ func init() {
 			{Name: "VC10_WinCertDecodeExact", Params: map[string]int{"vsymC10Max": 400}, ConcAlloc: true, MaxDecisions: 8000, MaxPaths: 2000000, TimeoutSec: 1200, NeedReach: []string{"end"}},
 			{Name: "VC10_EncodeDecode", Params: map[string]int{"vsymC10Max": 300}, ConcAlloc: true, MaxDecisions: 8000, MaxPaths: 2000000, TimeoutSec: 1200, NeedReach: []string{"end"}},
 		},
-		Bounds:      []string{"descriptor || payload with every byte symbolic, total length <= 100 (quick) / 400 (thorough); dwLength any value that fits; any timestamp, type GUID, data, payload", "encode->decode: certificate data 0..60 (quick) / 0..300 bytes, payload 0..24 bytes"},
+		Bounds:      []string{"descriptor || payload with every byte symbolic, total length <= 100 (quick) / 400 (thorough); dwLength any value that fits; any timestamp, type GUID, data, payload; revision and certificate type arbitrary: whenever decoding reports success the exactness obligations must hold, and revision 0x0200 / type 0x0EF1 must be accepted", "encode->decode: certificate data 0..60 (quick) / 0..300 bytes, payload 0..24 bytes"},
 		Outside:     []string{"certificate data longer than the bound (the codec copies it verbatim)", "malformed descriptors (C14)"},
 		Assumptions: commonAssumptions,
 	}
@@ -106,6 +106,11 @@ func init() {
 		}
 		return HarnessSpec{Name: name, Params: p, ConcAlloc: true, OpaqueFmt: true, MaxDecisions: 4000, MaxPaths: 400000, TimeoutSec: 300, NeedReach: []string{"end"}}
 	}
+	c14t := func(name string, max int, extra map[string]int) HarnessSpec {
+		h := c14(name, max, extra)
+		h.MaxDecisions, h.MaxPaths, h.TimeoutSec = 8000, 4000000, 1500
+		return h
+	}
 	registry["C14"] = &Property{
 		Quick: []HarnessSpec{
 			c14("VC14_SignatureDatabase", 64, nil), c14("VC14_SignatureDatabaseUnmarshal", 64, nil), c14("VC14_SignatureList", 64, nil),
@@ -115,7 +120,15 @@ func init() {
 			c14("VC14_LoadOption", 22, map[string]int{"vsymC14Path": 6}), c14("VC14_DevicePath", 14, nil), c14("VC14_MediaNode", 0, map[string]int{"vsymC14Path": 8}),
 			c14("VC14_Efistring", 10, nil), c14("VC14_BootOrder", 16, nil), c14("VC14_Efibool", 4, nil), c14("VC14_ParseEfivars", 32, nil),
 		},
-		Bounds: []string{"one harness per decoder entry point, every input byte and the length symbolic (length case-split): signature database/list, auth descriptor, WIN_CERTIFICATE(_UEFI_GUID), supported signatures <= 64 bytes; UTF-16 decoders <= 10 bytes; load option <= 22 bytes with description <= 3 code units; device path <= 14 bytes (three nodes); media node <= 44 bytes (file path <= 8); GUID text: canonical layout with 3 symbolic characters (one a separator position), and any text <= 4 chars; variable file <= 32 bytes with an independent symbolic stat size",
+		Thorough: []HarnessSpec{
+			c14t("VC14_SignatureDatabase", 128, nil), c14t("VC14_SignatureDatabaseUnmarshal", 128, nil), c14t("VC14_SignatureList", 128, nil),
+			c14t("VC14_AuthDescriptor", 160, nil), c14t("VC14_AuthDescriptorUnmarshal", 160, nil), c14t("VC14_WinCertificate", 160, nil),
+			c14t("VC14_WinCertificateUEFIGUID", 160, nil), c14t("VC14_SupportedSignatures", 160, nil),
+			c14t("VC14_ParseUtf16Var", 14, nil), c14t("VC14_ReadNullString", 40, nil), c14t("VC14_BytesToGUID", 40, nil), c14t("VC14_StringToGUID", 0, nil),
+			c14t("VC14_LoadOption", 26, map[string]int{"vsymC14Path": 6}), c14t("VC14_DevicePath", 18, nil), c14t("VC14_MediaNode", 0, map[string]int{"vsymC14Path": 12}),
+			c14t("VC14_Efistring", 14, nil), c14t("VC14_BootOrder", 64, nil), c14t("VC14_Efibool", 8, nil), c14t("VC14_ParseEfivars", 96, nil),
+		},
+		Bounds: []string{"thorough tier: the same harnesses with inputs up to 128 bytes (signature database / list), 160 (descriptor, WIN_CERTIFICATE, supported signatures), 14 (UTF-16), 26 (load option), 18 (device path), 96 (variable file)", "one harness per decoder entry point, every input byte and the length symbolic (length case-split): signature database/list, auth descriptor, WIN_CERTIFICATE(_UEFI_GUID), supported signatures <= 64 bytes; UTF-16 decoders <= 10 bytes; load option <= 22 bytes with description <= 3 code units; device path <= 14 bytes (three nodes); media node <= 44 bytes (file path <= 8); GUID text: canonical layout with 3 symbolic characters (one a separator position), and any text <= 4 chars; variable file <= 32 bytes with an independent symbolic stat size",
 			"obligations on every path: no panic, no log.Fatal/os.Exit, every make([]byte,n) <= 8*len+8192, termination within the unwinding bounds"},
 		Outside:     []string{"inputs longer than the bounds", "wall-clock time and resident memory as measured quantities (replaced by unwinding bounds and allocation-size obligations)", "PEM key/certificate files (encoding/pem and crypto/x509 are not interpreted)", "formatted text (fmt.Sprintf is opaque in these harnesses)"},
 		Assumptions: commonAssumptions,
@@ -128,8 +141,8 @@ func init() {
 		Quick: []HarnessSpec{c01(1, 1, 0x80, 0, 300), c01(1, 0, 0x40, 0, 300), c01(2, 1, 0x80, 3, 600),
 			{Name: "VC01_MultiReadAt", Params: map[string]int{"vsymC01Parts": 2}, TimeoutSec: 300, NeedReach: []string{"end"}},
 			{Name: "VC01_Coverage", MaxDecisions: 2000, TimeoutSec: 300, NeedReach: []string{"covered", "excluded", "end"}}},
-		Thorough: []HarnessSpec{c01(0, 1, 0x80, 0, 600), c01(1, 1, 0x80, 0, 600), c01(1, 0, 0x40, 0, 600), c01(1, 1, 0xf8, 0, 600), c01(2, 1, 0x80, 0, 3000), c01(2, 0, 0x80, 0, 3000), c01(3, 1, 0x80, 1, 7200),
-			{Name: "VC01_MultiReadAt", Params: map[string]int{"vsymC01Parts": 3}, TimeoutSec: 1800, NeedReach: []string{"end"}},
+		Thorough: []HarnessSpec{c01(0, 1, 0x80, 0, 600), c01(1, 1, 0x80, 0, 600), c01(1, 0, 0x40, 0, 600), c01(1, 1, 0xf8, 0, 600), c01(2, 1, 0x80, 0, 900), c01(2, 0, 0x80, 0, 900), c01(3, 1, 0x80, 1, 1200),
+			{Name: "VC01_MultiReadAt", Params: map[string]int{"vsymC01Parts": 3}, TimeoutSec: 600, NeedReach: []string{"end"}},
 			{Name: "VC01_Coverage", MaxDecisions: 2000, TimeoutSec: 600, NeedReach: []string{"covered", "excluded", "end"}}},
 		Bounds: []string{"symbolic image: length <= 2^24 and every byte symbolic; SizeOfHeaders, every section's PointerToRawData/SizeOfRawData (any header order, zero-size sections, gaps), certificate directory (absent or at the end, 8-aligned), trailing data and file length mod 8 all symbolic",
 			"shape (enumerated): sections 1..2 (quick; the two-section shape with raw data in both and no certificate table) / 0..3 (thorough), PE32 and PE32+, NumberOfRvaAndSizes=16, e_lfanew in {0x40,0x80} (quick) + 0xf8 (thorough), machine AMD64",
@@ -145,7 +158,7 @@ func init() {
 	}
 	registry["C03"] = &Property{
 		Quick:    []HarnessSpec{c03("VC03_AppendLayout", 1, 1, 1, 400), c03("VC03_AppendTwice", 1, 1, 2, 400), {Name: "VC03_SignVerify", MaxDecisions: 2000, TimeoutSec: 300, NeedReach: []string{"end"}}},
-		Thorough: []HarnessSpec{c03("VC03_AppendLayout", 0, 1, 1, 600), c03("VC03_AppendLayout", 1, 1, 1, 600), c03("VC03_AppendLayout", 1, 0, 1, 600), c03("VC03_AppendLayout", 2, 1, 1, 3000), c03("VC03_AppendTwice", 1, 1, 3, 1200), {Name: "VC03_SignVerify", MaxDecisions: 2000, TimeoutSec: 600, NeedReach: []string{"end"}}},
+		Thorough: []HarnessSpec{c03("VC03_AppendLayout", 0, 1, 1, 600), c03("VC03_AppendLayout", 1, 1, 1, 600), c03("VC03_AppendLayout", 1, 0, 1, 600), c03("VC03_AppendLayout", 2, 1, 1, 1200), c03("VC03_AppendTwice", 1, 1, 3, 900), {Name: "VC03_SignVerify", MaxDecisions: 2000, TimeoutSec: 600, NeedReach: []string{"end"}}},
 		Bounds: []string{"sign/verify histories on the shipped test image under the signature model: sign, serialise, re-parse (digest unchanged, embedded digest equal, verifies for the signer, not for another certificate), sign again with another key on the re-parsed image (both verify, a third certificate does not, two table entries); serials symbolic",
 			"symbolic well-formed image as in C01 (1 section quick; 0..2 thorough; PE32/PE32+), with or without an existing certificate table of arbitrary content; signature bytes and length symbolic (0..65536, every length mod 8)",
 			"decided: output bytes = every original byte except the directory entry, zero padding to 8, old table, new WIN_CERTIFICATE (dwLength=8+len, revision 0x0200, type 0x0002, data, padding to 8); directory entry = (padded length or old address, table size) and spans to end of file; 2 (quick) / 3 in-memory appends"},
@@ -158,7 +171,7 @@ func init() {
 	registry["C09"] = &Property{
 		Quick:    []HarnessSpec{c09("VC09_Append", 2, 2, 300, "append-ok", "append-error", "end"), c09("VC09_Remove", 2, 2, 300, "remove-ok", "remove-error", "end"), c09("VC09_Remove", 1, 3, 300, "remove-ok", "remove-error", "end"), c09("VC09_Append", 1, 3, 300, "append-ok", "append-error", "end"), c09("VC09_Membership", 2, 1, 300, "end")},
 		Thorough: []HarnessSpec{c09("VC09_Append", 3, 2, 3000, "append-ok", "append-error", "end"), c09("VC09_Remove", 3, 2, 3000, "remove-ok", "remove-error", "end"), c09("VC09_Membership", 2, 2, 3000, "end")},
-		Bounds: []string{"one operation (Append / Remove / BytesExists / SigDataExists) with symbolic arguments from an arbitrary valid pre-state: 0..2 lists x 1..2 entries and 0..1 list x 1..3 entries (quick; membership 1 entry per list) / 0..3 x 1..2 (thorough), list kinds SHA-256, X.509 of 3/4/59 bytes, SHA-1; argument types SHA-256, X.509, SHA-1, unknown GUID; data lengths 32, 3, 4, 33, 20, 59; X.509 data raw or as PEM text (vsym.PEMOf); owners and data symbolic",
+		Bounds: []string{"one operation (Append / Remove / BytesExists / SigDataExists) with symbolic arguments from an arbitrary valid pre-state: 0..2 lists x 1..2 entries and 0..1 list x 1..3 entries (quick; membership 1 entry per list) / 0..3 x 1..2 (thorough), list kinds SHA-256, X.509 of 3/4/59 bytes, SHA-1; argument types SHA-256, X.509, SHA-1, unknown GUID; data lengths 32, 3, 4, 33, 20, 59; X.509 data raw or as PEM text (vsym.PEMOf); owners and data symbolic; both in-memory forms of the empty signature header (nil as the decoder leaves it, empty as the constructor makes it); an append of an entry already in the first list of its type and size must report an error",
 			"pre-state invariant Inv: ListSize = 28 + n*Size, every entry has Size bytes, n >= 1, no duplicate inside a list; histories of any length follow by induction on the step, the empty database is the base case"},
 		Outside:     []string{"AppendList / AppendDatabase and the list-level API (SignatureList.AppendBytes on a list of another size)", "duplicates across two lists of equal type and size (the statement is read per list)", "real certificates (data is opaque bytes)"},
 		Assumptions: append([]string{"encoding/pem.Decode is modelled: PEM inputs are introduced with vsym.PEMOf (decode to their DER bytes), other symbolic data is assumed not to be PEM text; native replays use the real encoding/pem"}, commonAssumptions...),
@@ -189,16 +202,21 @@ func init() {
 			{Name: "VC11_Read", Params: map[string]int{"vsymC11Name": 4, "vsymC11Value": 4096}, NeedReach: []string{"end", "absent", "short", "wrongattrs"}},
 			{Name: "VC11_Predefined", NeedReach: []string{"end"}},
 			{Name: "VC11_LegacyWriteRead", Params: map[string]int{"vsymC11Name": 4, "vsymC11Value": 4096}, NeedReach: []string{"end", "probe-error"}},
+			{Name: "VC11_LegacySequence", NeedReach: []string{"end"}},
+			{Name: "VC11_WriteSequence", Params: map[string]int{"vsymC11Name": 2, "vsymC11Value": 8}, NeedReach: []string{"end"}},
 		},
 		Thorough: []HarnessSpec{
 			{Name: "VC11_LegacyWriteRead", Params: map[string]int{"vsymC11Name": 8, "vsymC11Value": 1 << 16}, NeedReach: []string{"end", "probe-error"}},
 			{Name: "VC11_WriteTrace", Params: map[string]int{"vsymC11Name": 8, "vsymC11Value": 1 << 16}, NeedReach: []string{"end"}},
 			{Name: "VC11_Read", Params: map[string]int{"vsymC11Name": 8, "vsymC11Value": 1 << 16}, NeedReach: []string{"end", "absent", "short", "wrongattrs"}},
 			{Name: "VC11_Predefined", NeedReach: []string{"end"}},
+			{Name: "VC11_LegacySequence", NeedReach: []string{"end"}},
+			{Name: "VC11_WriteSequence", Params: map[string]int{"vsymC11Name": 2, "vsymC11Value": 64}, NeedReach: []string{"end"}},
 		},
 		Bounds: []string{"object API (EFIFS.WriteVar / GetVarWithAttributes over fswrapper): symbolic GUID (all 2^128), symbolic 32-bit attribute mask, name = 4 (quick) / 8 symbolic ASCII letters or digits, value / stored file = symbolic bytes of symbolic length <= 4096 (quick) / 65536; every predefined variable definition by name",
 			"file system = recording afero.Fs written in the harness (interpreted): the complete operation trace is asserted",
-			"legacy package-level API (efi/attributes.WriteEfivarsWithGuid / ReadEfivarsWithGuid over efi/fs): same trace assertions and read-back, same symbolic inputs"},
+			"legacy package-level API (efi/attributes.WriteEfivarsWithGuid / ReadEfivarsWithGuid over efi/fs): same trace assertions and read-back, same symbolic inputs",
+			"histories of two writes (both APIs): independent symbolic attribute masks and values; the second write's open mode and buffer depend on its own arguments only"},
 		Outside:     []string{"the immutable-flag ioctl of the legacy API is an OS stub (any flag word or error); the attribute-checked typed readers of package efi (GetPK, ...) are not harnessed", "efivars directories other than the default", "names with characters outside [A-Za-z0-9] (path.Clean is interpreted; such characters are excluded by assumption)"},
 		Assumptions: commonAssumptions,
 	}
@@ -221,8 +239,21 @@ func init() {
 			{Name: "VC15_ImageSignFault", NeedReach: []string{"end", "signer-failed", "signed"}},
 			{Name: "VC15_ImageReaderFault", NeedReach: []string{"end", "faulted", "clean"}},
 			{Name: "VC15_VerifyReaderFault", NeedReach: []string{"end", "verify-faulted", "verify-clean", "hash-faulted"}},
+			{Name: "VC15_LegacyWriteFaults", NeedReach: []string{"end", "faulted", "clean"}},
+			{Name: "VC15_LegacyReadFaults", NeedReach: []string{"end", "faulted"}},
 		},
-		Bounds: []string{"write variable: every position of the call sequence OpenFile / Write / Close may fail (symbolic fault bits, all combinations), and Write may be short by any symbolic count; read variable: Open / Stat / every Read may fail", "asserted: any injected fault => non-nil error, nothing decoded after a failed read",
+		Thorough: []HarnessSpec{
+			{Name: "VC15_WriteFaults", Params: map[string]int{"vsymC11Name": 6, "vsymC11Value": 1 << 16}, NeedReach: []string{"end", "faulted", "clean"}},
+			{Name: "VC15_ReadFaults", Params: map[string]int{"vsymC11Name": 6, "vsymC11Value": 1 << 16}, NeedReach: []string{"end", "faulted"}},
+			{Name: "VC15_SignerFault", NeedReach: []string{"end", "failed", "signed"}},
+			{Name: "VC15_SignedUpdateFaults", Params: map[string]int{"vsymC11Name": 2}, NeedReach: []string{"end", "signer-failed", "ok"}},
+			{Name: "VC15_ImageSignFault", NeedReach: []string{"end", "signer-failed", "signed"}},
+			{Name: "VC15_ImageReaderFault", NeedReach: []string{"end", "faulted", "clean"}},
+			{Name: "VC15_VerifyReaderFault", NeedReach: []string{"end", "verify-faulted", "verify-clean", "hash-faulted"}},
+			{Name: "VC15_LegacyWriteFaults", Params: map[string]int{"vsymC15Value": 4096}, NeedReach: []string{"end", "faulted", "clean"}},
+			{Name: "VC15_LegacyReadFaults", Params: map[string]int{"vsymC15Value": 4096}, NeedReach: []string{"end", "faulted"}},
+		},
+		Bounds: []string{"thorough tier: names of 6 characters, values up to 65536 bytes (legacy API 4096)", "write variable: every position of the call sequence OpenFile / Write / Close may fail (symbolic fault bits, all combinations), and Write may be short by any symbolic count; read variable: Open / Stat / every Read may fail", "asserted: any injected fault => non-nil error, nothing decoded after a failed read; the same for the legacy package-level writer and reader of efi/attributes (values <= 16 bytes)",
 			"signer: Sign may fail (symbolic fault bit) in SignPKCS7 (3 content types), in PECOFFBinary.Sign on the shipped test image (error, no signature returned, Signatures() and Bytes() unchanged) and in WriteSignedUpdate combined with all file-system faults (failed signing writes nothing)",
 			"image reader: every one of the ReadAt calls Parse issues on the shipped test image may fail: error and no parsed object; on a doubly signed image every ReadAt call of Verify and Hash may fail (all combinations): never success, error reported, no digest"},
 		Outside:     []string{"a failing Close after a complete read is not asserted (it does not invalidate the data read)", "images other than the shipped unsigned test image for the image-level fault harnesses (the image is concrete there; the fault positions are symbolic)"},
@@ -231,22 +262,25 @@ func init() {
 	registry["C05"] = &Property{
 		Quick:    []HarnessSpec{{Name: "VC05_DERvsReference", Params: map[string]int{"vsymC05Content": 140, "vsymC05Serial": 2, "vsymC05RawLens": 2}, MaxDecisions: 2000, MaxPaths: 400000, TimeoutSec: 400, NeedReach: []string{"end"}}},
 		Thorough: []HarnessSpec{{Name: "VC05_DERvsReference", Params: map[string]int{"vsymC05Content": 700, "vsymC05Serial": 4, "vsymC05RawLens": 3}, MaxDecisions: 4000, MaxPaths: 4000000, TimeoutSec: 7200, NeedReach: []string{"end"}}},
-		Bounds: []string{"content: every length 0..140 (quick) / 0..700 (thorough), bytes symbolic; content types data, SpcIndirectDataContent, 1.2.3.4; certificate bytes of 5/140 (+300 thorough) symbolic bytes; issuer 3 symbolic bytes (copied verbatim); serial magnitudes of 1 and 20 (+2, 8 thorough) symbolic bytes incl. high bit set; the output is also parsed and verified by the library itself; clock symbolic (2001..2049)",
-			"oracle: reference RFC 2315 / X.690 encoder written in the harness (minimal definite lengths, INTEGER with sign octet, attribute SET = contentType, signingTime, messageDigest = SHA-256(content), signature = Sign(key, SHA-256(SET))): output compared byte for byte"},
+		Bounds: []string{"content: every length 0..140 (quick) / 0..700 (thorough), bytes symbolic; content types data, SpcIndirectDataContent, 1.2.3.4, a 17-octet and a 34-octet OID (attribute set in DER order differs from the fixed order; attribute set longer than 127 bytes); certificate bytes of 5/140 (+300 thorough) symbolic bytes; issuer 3 symbolic bytes (copied verbatim); serial magnitudes of 1 and 20 (+2, 8 thorough) symbolic bytes incl. high bit set; the output is also parsed and verified by the library itself; clock symbolic (2001..2049)",
+			"oracle: reference RFC 2315 / X.690 encoder written in the harness (minimal definite lengths, INTEGER with sign octet, attribute SET OF = contentType, signingTime, messageDigest = SHA-256(content) ordered by encoding (X.690 11.6), signature = Sign(key, SHA-256(SET))): output compared byte for byte"},
 		Outside:     []string{"that OpenSSL / other implementations agree with this reading of RFC 2315 (they are not Go code the engine can execute)", "contents longer than the bound (all DER length classes up to 0x82 are inside the thorough bound)", "RSA key sizes other than 2048 (the signature is an opaque 256-byte string in the model)", "clock in 2050 or later: the attribute encoder panics (UTCTime range) — assumed away, see DESIGN.md"},
 		Assumptions: append([]string{"signature model: Sign(key, digest) is deterministic and injective per key; SHA-256 as in C01", "time model: calendar fields are uninterpreted functions of the instant, years 1950..2049"}, commonAssumptions...),
 	}
 	registry["C06"] = &Property{
-		Quick:    []HarnessSpec{{Name: "VC06_SignedUpdateLayout", Params: map[string]int{"vsymC06Name": 3, "vsymC06Payload": 40}, MaxDecisions: 2000, NeedReach: []string{"end"}}},
-		Thorough: []HarnessSpec{{Name: "VC06_SignedUpdateLayout", Params: map[string]int{"vsymC06Name": 8, "vsymC06Payload": 300}, MaxDecisions: 4000, MaxPaths: 400000, TimeoutSec: 3000, NeedReach: []string{"end"}}},
+		Quick: []HarnessSpec{{Name: "VC06_SignedUpdateLayout", Params: map[string]int{"vsymC06Name": 3, "vsymC06Payload": 40}, MaxDecisions: 2000, NeedReach: []string{"end"}},
+			{Name: "VC06_WrittenUpdateBinding", Params: map[string]int{"vsymC11Name": 2, "vsymC06Payload": 8}, MaxDecisions: 2000, NeedReach: []string{"end"}}},
+		Thorough: []HarnessSpec{{Name: "VC06_SignedUpdateLayout", Params: map[string]int{"vsymC06Name": 8, "vsymC06Payload": 300}, MaxDecisions: 4000, MaxPaths: 400000, TimeoutSec: 3000, NeedReach: []string{"end"}},
+			{Name: "VC06_WrittenUpdateBinding", Params: map[string]int{"vsymC11Name": 4, "vsymC06Payload": 64}, MaxDecisions: 4000, TimeoutSec: 1200, NeedReach: []string{"end"}}},
 		Bounds: []string{"name: 3 (quick) / 8 symbolic printable ASCII characters; GUID: all 2^128; attribute mask: all 2^32 (APPEND_WRITE on and off); payload: every length 0..40 (quick) / 0..300, bytes symbolic; clock symbolic; process time zone symbolic (UTC-12..UTC+14, whole hours)",
+			"through Efivarfs.WriteSignedUpdate on the recording file system (name 2 / 4 letters or digits, payload 0..8 / 0..64): one write of attributes || descriptor || payload, and the message digest signed inside the descriptor is the SHA-256 of name || GUID || the attributes written || descriptor timestamp || payload",
 			"decided: output = 16-byte timestamp (UTC calendar fields of the clock, other fields zero) || dwLength=24+len(SignedData), revision 0x0200, type 0x0EF1, PKCS7 type GUID in wire order || bare detached SignedData equal byte for byte to the reference encoding over UTF-16LE(name)||GUID||attrs||timestamp||payload || payload"},
 		Outside:     []string{"non-ASCII names", "acceptance by real firmware", "payload kinds beyond raw bytes (a database payload is its encoding, C07)"},
 		Assumptions: append([]string{"signature, hash and time models as in C05; native replays run with TZ set from the model (Etc/GMT±h)"}, commonAssumptions...),
 	}
 	registry["C02"] = &Property{
 		Quick:    []HarnessSpec{{Name: "VC02_SignedImage", Params: map[string]int{"vsymC02Stride": 64, "vsymC02Regions": 3}, MaxDecisions: 2000, TimeoutSec: 600, NeedReach: []string{"complete", "end"}}},
-		Thorough: []HarnessSpec{{Name: "VC02_SignedImage", Params: map[string]int{"vsymC02Stride": 8, "vsymC02Regions": 4}, MaxDecisions: 4000, MaxPaths: 400000, TimeoutSec: 7200, NeedReach: []string{"complete", "end"}}},
+		Thorough: []HarnessSpec{{Name: "VC02_SignedImage", Params: map[string]int{"vsymC02Stride": 8, "vsymC02Regions": 4}, MaxDecisions: 4000, MaxPaths: 400000, TimeoutSec: 1800, NeedReach: []string{"complete", "end"}}},
 		Bounds: []string{"the shipped unsigned test image (concrete, 3825 bytes, 5 sections), signed by the library under the signature model with a symbolic serial; verified against the signer (must succeed), against another key under the same issuer and serial, and against an unrelated certificate (must not)",
 			"single-byte changes with symbolic value: every position of the section data (position symbolic per 512-byte window); each of the 32 bytes of the embedded image digest; issuer/serial bytes (all), signed-attribute bytes (stride 8) and signature bytes (stride 64) inside the SignerInfo; thorough adds sampled header bytes and the symbol-table window and stride 1/8",
 			"decided: Verify(cert) is not true for any of these mutants (collision resistance of SHA-256 stated exactly for equal-length inputs; unforgeability of the signature model)"},
@@ -256,7 +290,9 @@ func init() {
 	registry["C04"] = &Property{
 		Quick: []HarnessSpec{{Name: "VC04_VerifySound", Params: map[string]int{"vsymC04Signers": 2}, MaxDecisions: 2000, TimeoutSec: 600, NeedReach: []string{"honest-verifies", "accepted", "rejected", "end"}},
 			{Name: "VC04_AttributeBytes", MaxDecisions: 2000, NeedReach: []string{"end"}}},
-		Bounds: []string{"attribute bytes: the three standard attributes signed in any of the 6 orders and placed in the blob (built by the reference encoder, content attached) in any of the 6 orders: Verify is true iff the orders agree",
+		Thorough: []HarnessSpec{{Name: "VC04_VerifySound", Params: map[string]int{"vsymC04Signers": 3}, MaxDecisions: 4000, MaxPaths: 2000000, TimeoutSec: 3600, NeedReach: []string{"honest-verifies", "accepted", "rejected", "end"}},
+			{Name: "VC04_AttributeBytes", MaxDecisions: 2000, NeedReach: []string{"end"}}},
+		Bounds: []string{"thorough tier: 1..3 signer entries", "attribute bytes: the three standard attributes signed in any of the 6 orders and placed in the blob (built by the reference encoder, content attached) in any of the 6 orders: Verify is true iff the orders agree",
 			"unit level: the parsed SignedData is arbitrary — 1..2 signer entries with symbolic issuer, serial, content type, 32-byte message digest and 256-byte signature; encapsulated content present or absent with symbolic bytes; the honest key has produced one real signature (SignPKCS7) that the adversary may reuse",
 			"decided: Verify(cert) = true only if some entry names the certificate, its signature is valid under the certificate's key over that entry's attribute SET, and (content encapsulated) its message digest equals SHA-256 of the content; completeness: the honest blob parses and verifies"},
 		Outside:     []string{"byte-level edits of real blobs (covered for the Authenticode blob by C02)", "attribute edits other than permutation (duplication, removal: they change the signed bytes in the same way)", "EFIVariableAuthentication2.Verify entry point (thin wrapper)"},
@@ -271,21 +307,23 @@ func init() {
 			{Name: "VC13_BlobByte", Params: map[string]int{"vsymC13Stride": 64}, MaxDecisions: 2000, TimeoutSec: 400, NeedReach: []string{"end"}},
 		},
 		Thorough: []HarnessSpec{
-			{Name: "VC13_HeaderFields", Params: map[string]int{"vsymC13Field": -1}, MaxDecisions: 6000, MaxPaths: 200000, TimeoutSec: 3600, NeedReach: []string{"parsed", "rejected", "end"}},
-			{Name: "VC13_CertificateTable", Params: map[string]int{"vsymC13Table": 48}, ConcAlloc: true, MaxDecisions: 4000, MaxPaths: 2000000, TimeoutSec: 1800, NeedReach: []string{"end"}},
+			{Name: "VC13_HeaderFields", Params: map[string]int{"vsymC13Field": -1}, MaxDecisions: 6000, MaxPaths: 200000, TimeoutSec: 1200, NeedReach: []string{"parsed", "rejected", "end"}},
+			{Name: "VC13_CertificateTable", Params: map[string]int{"vsymC13Table": 48}, ConcAlloc: true, MaxDecisions: 4000, MaxPaths: 2000000, TimeoutSec: 600, NeedReach: []string{"end"}},
 			{Name: "VC13_NoAttributes", NeedReach: []string{"end"}},
-			{Name: "VC13_SmallDER", Params: map[string]int{"vsymC13Max": 14}, MaxDecisions: 4000, MaxPaths: 4000000, TimeoutSec: 3600, NeedReach: []string{"end"}},
-			{Name: "VC13_BlobByte", Params: map[string]int{"vsymC13Stride": 8}, MaxDecisions: 4000, MaxPaths: 200000, TimeoutSec: 7200, NeedReach: []string{"end"}},
+			{Name: "VC13_SmallDER", Params: map[string]int{"vsymC13Max": 14}, MaxDecisions: 4000, MaxPaths: 4000000, TimeoutSec: 900, NeedReach: []string{"end"}},
+			{Name: "VC13_BlobByte", Params: map[string]int{"vsymC13Stride": 16}, MaxDecisions: 4000, MaxPaths: 200000, TimeoutSec: 900, NeedReach: []string{"end"}},
 		},
 		Bounds: []string{"image: the shipped test image with one header field at a time taking every value (e_lfanew, NumberOfSections, PointerToSymbolTable, NumberOfSymbols, SizeOfOptionalHeader, Magic, SizeOfHeaders, NumberOfRvaAndSizes, certificate table address and size, and SizeOfRawData / PointerToRawData / PointerToRelocations / NumberOfRelocations of two sections), then Parse, Hash, Bytes, Signatures",
-			"certificate table walk: fully symbolic table of 0..24 (quick) / 0..48 bytes; PKCS#7: fully symbolic DER of 0..12 (quick) / 0..14 bytes, a library-produced blob with one byte (stride 64 quick / 8 thorough) taking every value, and a signer entry without signed attributes",
+			"certificate table walk: fully symbolic table of 0..24 (quick) / 0..48 bytes; PKCS#7: fully symbolic DER of 0..12 (quick) / 0..14 bytes, a library-produced blob with one byte (stride 64 quick / 16 thorough) taking every value, and a signer entry without signed attributes",
 			"obligations on every path: no panic, no log.Fatal/os.Exit, every byte allocation <= 8*len + 16 MiB (image) / 64 KiB (others), termination within 3000 symbolic decisions and 20M steps; violations are replayed natively (panic / exit / measured allocation above 64 MiB / time-out)"},
 		Outside:     []string{"several header fields changed at once, images other than the fixture, fully symbolic images", "Verify on mutated images (C02 covers single-byte mutants of a signed image)", "wall-clock time and resident memory as measured quantities", "longer symbolic DER"},
 		Assumptions: append([]string{"debug/pe.readCOFFSymbols reads auxiliary symbol records through an unsafe pointer cast; the model reads them into a scratch record (NewFile never uses their content)"}, commonAssumptions...),
 	}
 	registry["C16"] = &Property{
-		Quick: []HarnessSpec{{Name: "VC16_ThirdParty", NeedReach: []string{"end"}}, {Name: "VC16_Fixtures", NeedReach: []string{"end"}}},
-		Bounds: []string{"producer language (assumption about OpenSSL smime/cms with SHA-256 and sbsign, see DESIGN.md C16): attributes contentType(data), signingTime, messageDigest, optionally sMIMECapabilities with an opaque body of 7, 8, 48 or 150 bytes (signed attributes of 105..270 bytes: all three DER length forms), in DER order; with/without outer ContentInfo; digest algorithm with/without NULL parameters; content (4 symbolic bytes, as OCTET STRING) attached or detached — all 40 combinations; serials and certificate bytes symbolic; the blob is built by the harness's reference encoder, not by the library",
+		Quick: []HarnessSpec{{Name: "VC16_ThirdParty", NeedReach: []string{"end"}}, {Name: "VC16_ThirdParty", Params: map[string]int{"vsymC16Content": 130}, NeedReach: []string{"end"}}, {Name: "VC16_Fixtures", NeedReach: []string{"end"}}},
+		Thorough: []HarnessSpec{{Name: "VC16_ThirdParty", NeedReach: []string{"end"}}, {Name: "VC16_ThirdParty", Params: map[string]int{"vsymC16Content": 0}, NeedReach: []string{"end"}},
+			{Name: "VC16_ThirdParty", Params: map[string]int{"vsymC16Content": 200}, TimeoutSec: 1200, NeedReach: []string{"end"}}, {Name: "VC16_Fixtures", NeedReach: []string{"end"}}},
+		Bounds: []string{"thorough tier: content of 0, 4 and 200 symbolic bytes", "producer language (assumption about OpenSSL smime/cms with SHA-256 and sbsign, see DESIGN.md C16): attributes contentType(data), signingTime, messageDigest, optionally sMIMECapabilities with an opaque body of 7, 8, 48 or 150 bytes (signed attributes of 105..270 bytes: all three DER length forms), in DER SET OF order (by encoding: a short capability list sorts before or between the standard attributes); with/without outer ContentInfo; digest algorithm with/without NULL parameters; content (4 or 130 symbolic bytes, as OCTET STRING: short and long length form) attached or detached — all 40 combinations; serials and certificate bytes symbolic; the blob is built by the harness's reference encoder, not by the library",
 			"decided: parses; signedBytes() and Marshal() of the parsed attributes equal the signed SET byte for byte; Verify(signer's certificate) is true and Verify(other certificate) is false", "the four third-party artefacts shipped under pkcs7/testdata and authenticode/testdata parse (concrete run; certificates through the real crypto/x509)"},
 		Outside:     []string{"that the OpenSSL CLI emits exactly this language for each option combination (OpenSSL is C code outside the engine)", "verification of the shipped artefacts against their certificates (real RSA is outside the signature model)", "additional signed attributes beyond sMIMECapabilities; since fix 4b3bc85 verification uses the original attribute bytes, so attribute order no longer affects verification"},
 		Assumptions: append([]string{"signature, hash and time models as in C05"}, commonAssumptions...),
